@@ -287,6 +287,41 @@ func WithDeadMatcher(expr string, sel *parser.VectorSelector) (string, error) {
 	return out, nil
 }
 
+// PositivelyNamed lists the labels an expression names in = / =~ matchers, as label_replace/label_join
+// destination or as count_values label (the labels an analyser may take as guaranteed).
+func PositivelyNamed(n parser.Node) []string {
+	set := map[string]struct{}{}
+	parser.Inspect(n, func(node parser.Node, _ []parser.Node) error {
+		switch v := node.(type) {
+		case *parser.VectorSelector:
+			for _, m := range v.LabelMatchers {
+				if m.Name != labels.MetricName && (m.Type == labels.MatchEqual || m.Type == labels.MatchRegexp) {
+					set[m.Name] = struct{}{}
+				}
+			}
+		case *parser.AggregateExpr:
+			if v.Op == parser.COUNT_VALUES {
+				if s, ok := v.Param.(*parser.StringLiteral); ok {
+					set[s.Val] = struct{}{}
+				}
+			}
+		case *parser.Call:
+			if v.Func.Name == "label_replace" || v.Func.Name == "label_join" {
+				if s, ok := v.Args[1].(*parser.StringLiteral); ok {
+					set[s.Val] = struct{}{}
+				}
+			}
+		}
+		return nil
+	})
+	out := make([]string, 0, len(set))
+	for k := range set {
+		out = append(out, k)
+	}
+	sort.Strings(out)
+	return out
+}
+
 // MayCarry is a small structural over-approximation, independent of pint, of
 // "a series returned by this expression can carry label l" (l != __name__).
 // It is used only to name known-finding classes narrowly, never as an oracle.
@@ -316,7 +351,8 @@ func MayCarry(n parser.Node, l string) bool {
 		case parser.TOPK, parser.BOTTOMK:
 			return MayCarry(v.Expr, l)
 		case parser.COUNT_VALUES:
-			if s, ok := v.Param.(*parser.StringLiteral); ok && s.Val == l {
+			// (the engine drops the count_values label when without() lists it too)
+			if s, ok := v.Param.(*parser.StringLiteral); ok && s.Val == l && !(v.Without && contains(v.Grouping, l)) {
 				return true
 			}
 		}
